@@ -142,6 +142,9 @@ func ValidateODSSize(path string, eds *rsmt2d.ExtendedDataSquare) error {
 	if err != nil {
 		return fmt.Errorf("opening file: %w", err)
 	}
+	// the file is opened only to be measured: release the descriptor instead of leaving it to the
+	// garbage collector
+	defer ods.Close()
 
 	shares, err := filledSharesAmount(eds)
 	if err != nil {
@@ -173,6 +176,7 @@ func OpenODS(path string) (*ODS, error) {
 
 	h, err := readHeader(f)
 	if err != nil {
+		f.Close()
 		return nil, err
 	}
 
